@@ -640,7 +640,7 @@ pub fn record(mode: &str, seed: u64, n: usize, out: &mut Out) {
 }
 
 /// a payload that holds exactly one field per signal type
-fn exact_payload(r: &mut Rng, types: &[TypeInfo], be: bool) -> Vec<u8> {
+pub fn exact_payload(r: &mut Rng, types: &[TypeInfo], be: bool) -> Vec<u8> {
     let mut data = vec![];
     for t in types {
         match &t.kind {
